@@ -468,6 +468,38 @@ def task_group_names(ctx, repo):
         set(['s_m']), set(['d_rho']))
     obs.append(Obligation('group_names.cache', [], z3.BoolVal(bool(
         ok1 and ok2)), W))
+    # get_arrays_used_in_equation: the union over ALL FIVE per-particle
+    # methods (initialize, initialize_pair, loop, loop_all, post_loop)
+    fu = m.functions['get_arrays_used_in_equation']
+    specs = {'initialize': ['self', 'd_idx', 'd_a0', 't'],
+             'initialize_pair': ['self', 'd_idx', 'd_a1', 's_b1'],
+             'loop': ['self', 'd_idx', 's_idx', 'd_a2', 's_b2', 'XIJ'],
+             'loop_all': ['self', 'd_idx', 'd_a3', 's_b3', 'NBRS'],
+             'post_loop': ['self', 'd_idx', 'd_a4', 'dt']}
+    for tag, have in (('all', sorted(specs)), ('pair_only',
+                                               ['initialize_pair'])):
+        eqo = SymObject(None, {k_: ('method', k_) for k_ in have}, 'eq')
+        ex = Executor(repo, m, qualname='get_arrays_used_in_equation',
+                      merge=False, inline={'get_array_names'},
+                      externals={'getfullargspec': lambda e, s_, a, k, n:
+                                 SymObject(None, dict(args=list(specs[
+                                     a[0][1]])), 'spec')})
+        try:
+            outs = ex.exec_function(fu, dict(equation=eqo))
+        except VCError as e:
+            ctx.outside('group_names.arrays_used', str(e))
+            break
+        ws = set(x for k_ in have for x in specs[k_] if x.startswith('s_')
+                 and x != 's_idx')
+        wd = set(x for k_ in have for x in specs[k_] if x.startswith('d_')
+                 and x != 'd_idx')
+        ok = len(outs) == 1 and outs[0].kind == 'return' and \
+            tuple(set(x) for x in outs[0].value) == (ws, wd)
+        obs.append(Obligation('arrays_used.%s' % tag, [], z3.BoolVal(bool(ok)),
+                              W, extra=dict(got=str(outs[0].value)[:200]
+                                            if outs else None)))
+    else:
+        ctx.function(m, fu, 'get_arrays_used_in_equation')
     ctx.prove('group_names.union_of_equations_and_precomputed_blocks', obs)
 
 
@@ -579,6 +611,26 @@ def task_eq_module(ctx, repo, mn):
         if n_ret == 0:
             exp_obs.append(Obligation('%s.accepts_nothing' % cn, [],
                                       z3.BoolVal(False), m.path))
+        if not need['es'] and not need['is_'] and (need['ed'] or
+                                                   need['id']):
+            # an equation without sources (sources=None: equations of state,
+            # initialize / post_loop only) still reads its destination
+            m2, fn2, ex2, outs2, mems2 = run_checker(
+                repo, mn, cn, need, sources=None, arrays=('D',))
+            miss_d = z3.Or(*[z3.Not(mems2['D'][n]) for n in sorted(
+                need['ed'] | need['id'])])
+            nr = 0
+            for i, o in enumerate(outs2):
+                if o.kind == 'raise':
+                    continue
+                nr += 1
+                exp_obs.append(Obligation('%s.nosrc.%d.destination' % (cn, i),
+                                          o.pc, z3.Not(miss_d), m.path,
+                                          extra=dict(backends=['z3'],
+                                                     need=(mn, cn))))
+            if nr == 0:
+                exp_obs.append(Obligation('%s.nosrc.accepts_nothing' % cn,
+                                          [], z3.BoolVal(False), m.path))
     first = classes[0]
 
     def rp_for(kind):
